@@ -36,6 +36,11 @@ type EnvState struct {
 	locks    map[*Value]int
 	sent     []Value // harness-visible record channel (vRecord)
 	kv       map[string]Value
+	// scripted UDP socket
+	udpIn         []SliceV
+	udpOut        []SliceV
+	udpOnEmpty    Value
+	udpEmptyReads int
 }
 
 func newEnv(in *Interp) *EnvState {
